@@ -41,6 +41,9 @@ TARGETS = {
                  segs=["code", "xdata", "idata", "data"]),
     "68000": dict(hdr=0x01, gran=1, byte="dc.b", word=("dc.w", 2, "be"), long=("dc.l", 4, "be"), res="ds.b", dup="[%d]%s",
                   limit=0xFFFFFF, segs=["code"], prologue="\tpadding off\n"),
+    # the same target with its documented default PADDING ON: a pad byte (0) goes in front of word / long data at an odd address
+    "68000p": dict(hdr=0x01, gran=1, byte="dc.b", word=("dc.w", 2, "be"), long=("dc.l", 4, "be"), res="ds.b", dup="[%d]%s",
+                   limit=0xFFFFFF, segs=["code"], cpuname="68000", pad=True),
     "17c42": dict(hdr=0x72, gran=2, unit=("data", 2, "le", 0xFFFF), res="res", dup=None, limit=0xFFFF, segs=["code"]),
     "320c25": dict(hdr=0x75, gran=2, unit=("word", 2, "le", 0xFFFF), res="bss", dup=None, limit=0xFFFF, segs=["code"]),
     "16c84": dict(hdr=0x70, gran=2, unit=("data", 2, "le", 0x3FFF), res="res", dup=None, limit=0x3FF, segs=["code"]),
@@ -91,9 +94,12 @@ def gen_program(rng, big=False):
     budget = 200000 if big else 20000
 
     def switch_cpu(c):
+        same = m.cpu is not None and TARGETS[m.cpu].get("cpuname", m.cpu) == TARGETS[c].get("cpuname", c)
+        if same and not TARGETS[c].get("prologue"):
+            c = m.cpu  # naming the target that is already selected leaves its PADDING setting as it is
         m.cpu = c
         m.seg = "code"  # a CPU statement makes CODE the active segment again
-        L.append("\tcpu %s" % c)
+        L.append("\tcpu %s" % TARGETS[c].get("cpuname", c))
         if TARGETS[c].get("prologue"):
             L.append(TARGETS[c]["prologue"].rstrip("\n"))
 
@@ -108,7 +114,7 @@ def gen_program(rng, big=False):
     if not big and rng.chance(0.25):
         # no CPU statement at the top: the target comes from -cpu, or is the built-in default (68008)
         c0 = rng.choice(cpus + ["68000"])
-        L.append("; cpu0=%s %s" % (c0, "default" if c0 == "68000" and rng.chance(0.5) else "option"))
+        L.append("; cpu0=%s %s" % (c0, "default" if c0 in ("68000", "68000p") and rng.chance(0.5) else "option"))
         m.cpu = c0
         m.seg = "code"
         if TARGETS[c0].get("prologue"):
@@ -167,7 +173,7 @@ def gen_program(rng, big=False):
                         reps = cnt // len(pat)
                         if reps < 1:
                             continue
-                        if m.cpu == "68000":
+                        if m.cpu in ("68000", "68000p"):
                             if len(pat) > 1:
                                 pat = pat[:1]
                                 reps = cnt
@@ -186,9 +192,12 @@ def gen_program(rng, big=False):
                         total += cnt
                 else:
                     stmt, width, order = t[kind]
-                    cnt = max(0, min(cnt, room // width, 100, (budget - total) // width))
+                    cnt = max(0, min(cnt, (room - 1) // width, 100, (budget - total) // width))
                     if cnt <= 0:
                         continue
+                    if t.get("pad") and m.pc() & 1:
+                        m.emit([0])  # automatic pad byte
+                        total += 1
                     vals = [rng.below(1 << (8 * width)) for _ in range(cnt)]
                     for i in range(0, cnt, 10):
                         chunk = vals[i:i + 10]
@@ -379,7 +388,8 @@ def wrap(lines, seed):
                 j += 1
             block = lines[i:j]
             kind = rng.choice(WRAP_KINDS)
-            has_ctl = any(b.split()[0] in ("org", "segment", "align") for b in block)  # ALIGN works on the phased address
+            # ALIGN and the automatic padding of word data work on the phased address
+            has_ctl = any(b.split()[0] in ("org", "segment", "align", "dc.w", "dc.l") for b in block)
             if kind == "phase" and has_ctl:
                 kind = "if1"
             k += 1
@@ -425,7 +435,7 @@ def check_generated(sim, lines, model, knobs, variant, acc, wrap_seed=None, pred
     argv = None
     for ln in lines:
         if ln.startswith("; cpu0=") and ln.split()[-1] == "option":
-            argv = ["-q", "-cpu", ln[7:].split()[0], "a.asm"]
+            argv = ["-q", "-cpu", TARGETS[ln[7:].split()[0]].get("cpuname", ln[7:].split()[0]), "a.asm"]
     if pred is not None:
         argv = (argv or ["-q", "a.asm"])[:-1] + ["p.asm", "a.asm"]
         acc["faults"]["predecessor_file"] = acc["faults"].get("predecessor_file", 0) + 1
@@ -507,12 +517,19 @@ def rebuild_model(lines):
             m.pcs.setdefault("code", 0)  # CODE starts at 0 on every target of the table
             need_org = False
             continue
+        if ln == "padding off" and m.cpu == "68000p":
+            m.cpu = "68000"
+            continue
         if not ln or ln.startswith(";") or ln.endswith(":") or ln.startswith("listing") or ln.startswith("padding"):
             continue
         op, _, arg = ln.partition(" ")
         arg = arg.strip()
         if op == "cpu":
-            m.cpu = arg
+            if arg == "68000":
+                # PADDING ON is the default (the prologue line below turns it off); re-selecting the target changes nothing
+                m.cpu = m.cpu if m.cpu in ("68000", "68000p") else "68000p"
+            else:
+                m.cpu = arg
             m.seg = "code"
             need_org = "code" not in m.pcs
             continue
@@ -567,7 +584,7 @@ def rebuild_model(lines):
         else:
             for key in ("word", "long"):
                 if key in t and op == t[key][0]:
-                    bs = []
+                    bs = [0] if (t.get("pad") and m.pc() & 1) else []
                     for v in arg.split(","):
                         bs += enc(int(v), t[key][1], t[key][2])
                     m.emit(bs)
